@@ -92,6 +92,75 @@ class _Subst(ast.NodeTransformer):
         return self.generic_visit(node)
 
 
+MUTATORS = {"append", "extend", "insert", "add", "update", "pop", "remove", "discard", "clear", "sort", "reverse", "setdefault",
+            "popitem", "__setitem__", "__delitem__"}
+
+
+def _root(e):
+    while isinstance(e, (ast.Attribute, ast.Subscript, ast.Call)):
+        e = e.func if isinstance(e, ast.Call) else e.value
+    return e.id if isinstance(e, ast.Name) else None
+
+
+def _simple_stmts(stmts, in_loop=None):
+    """(statement or header expression, innermost enclosing loop within stmts) in source order"""
+    for st in stmts:
+        if isinstance(st, (ast.For, ast.While)):
+            yield (st.iter if isinstance(st, ast.For) else st.test), (st if isinstance(st, ast.While) else in_loop)
+            yield from _simple_stmts(st.body, st)
+            yield from _simple_stmts(st.orelse, in_loop)
+        elif isinstance(st, ast.If):
+            yield st.test, in_loop
+            yield from _simple_stmts(st.body, in_loop)
+            yield from _simple_stmts(st.orelse, in_loop)
+        elif isinstance(st, ast.Try):
+            yield from _simple_stmts(st.body, in_loop)
+            for h in st.handlers:
+                yield from _simple_stmts(h.body, in_loop)
+            yield from _simple_stmts(st.orelse, in_loop)
+            yield from _simple_stmts(st.finalbody, in_loop)
+        elif isinstance(st, ast.With):
+            for it in st.items:
+                yield it.context_expr, in_loop
+            yield from _simple_stmts(st.body, in_loop)
+        elif isinstance(st, (ast.FunctionDef, ast.AsyncFunctionDef, ast.ClassDef)):
+            continue
+        else:
+            yield st, in_loop
+
+
+def _mutates(node, roots):
+    """does the simple statement store into, or call a mutator on, an object reached from one of the root names?"""
+    for n in ast.walk(node):
+        if isinstance(n, (ast.Subscript, ast.Attribute)) and isinstance(n.ctx, (ast.Store, ast.Del)) and _root(n) in roots:
+            return True
+        if isinstance(n, ast.Call) and isinstance(n.func, ast.Attribute) and n.func.attr in MUTATORS and _root(n.func.value) in roots:
+            return True
+    return False
+
+
+def _mutation_safe(value, name, rest):
+    """An alias of an expression that reads through an object (`old = d[k]`, `n = len(lst)`, `t = obj.attr`) may only be
+    substituted into uses that are evaluated before the object is next written: a use after `d[k] = ..` / `lst.append(..)` would
+    otherwise see the new contents.  Uses inside the mutating statement itself are evaluated before its store takes effect."""
+    if not any(isinstance(n, (ast.Subscript, ast.Attribute, ast.Call)) for n in ast.walk(value)):
+        return True
+    roots = _names(value)
+    mutated = False
+    loops_with_mutation = []
+    seq = list(_simple_stmts(rest))
+    for node, loop in seq:
+        if _mutates(node, roots) and loop is not None:
+            loops_with_mutation.append(loop)
+    for node, loop in seq:
+        uses = any(isinstance(n, ast.Name) and n.id == name and isinstance(n.ctx, ast.Load) for n in ast.walk(node))
+        if uses and (mutated or any(loop is l or (loop is not None and any(x is loop for x in ast.walk(l))) for l in loops_with_mutation)):
+            return False
+        if _mutates(node, roots):
+            mutated = True
+    return True
+
+
 def _inline_in_block(block, counts, keep):
     """one pass over a statement list; returns True if something was inlined"""
     changed = False
@@ -129,6 +198,8 @@ def _inline_in_block(block, counts, keep):
                             if reads_alias or any(isinstance(n, ast.Name) and n.id == name for q in after for n in ast.walk(q)):
                                 ok = False
                         break
+                if ok and not _mutation_safe(st.value, name, rest):
+                    ok = False
                 if ok:
                     sub = _Subst(name, st.value)
                     trial = [sub.visit(copy.deepcopy(b)) for b in block[i + 1:]]
@@ -139,16 +210,223 @@ def _inline_in_block(block, counts, keep):
                         del block[i]
                         changed = True
                         continue
+            # a single-use temporary consumed by the very next statement: `h = prng.nextRandom(); n = int_from_hash(h)`.  The value
+            # need not be pure: it is evaluated at the same point of the execution as long as nothing impure is evaluated in the
+            # consuming statement before the use, and the use is evaluated exactly once (not under a conditional expression, a
+            # short-circuit operator, a comprehension, a lambda or a loop test).
+            if counts.get(name, 0) == 1 and name not in keep and counts.get("@loads:" + name, 0) == 1 and i + 1 < len(block) \
+                    and not isinstance(st.value, (ast.Lambda, ast.Constant, ast.Yield, ast.Await)) and _single_use_ok(block[i + 1], name):
+                sub = _Subst(name, st.value)
+                nxt = block[i + 1]
+                for h in _header_exprs(nxt):
+                    if h is nxt:
+                        block[i + 1] = sub.visit(nxt)
+                    else:
+                        for fld, val in ast.iter_fields(nxt):
+                            if val is h:
+                                setattr(nxt, fld, sub.visit(h))
+                if sub.n == 1:
+                    del block[i]
+                    changed = True
+                    continue
+        i += 1
+    return changed
+
+
+def _eval_order(node, out):
+    """post-order over the expression fields in evaluation order (Assign: value before targets)"""
+    if isinstance(node, ast.Assign):
+        _eval_order(node.value, out)
+        for t in node.targets:
+            _eval_order(t, out)
+    elif isinstance(node, ast.AnnAssign):
+        if node.value is not None:
+            _eval_order(node.value, out)
+        _eval_order(node.target, out)
+    else:
+        for c in ast.iter_child_nodes(node):
+            _eval_order(c, out)
+    out.append(node)
+
+
+def _single_use_ok(nxt, name):
+    headers = _header_exprs(nxt)
+    if not headers:
+        return False
+    for h in headers:
+        uses = [n for n in ast.walk(h) if isinstance(n, ast.Name) and n.id == name and isinstance(n.ctx, ast.Load)]
+        if len(uses) != 1:
+            continue
+        use = uses[0]
+        # ancestors of the use inside h
+        par = {}
+        for p_ in ast.walk(h):
+            for c in ast.iter_child_nodes(p_):
+                par[id(c)] = p_
+        anc = []
+        q = use
+        while id(q) in par:
+            prev, q = q, par[id(q)]
+            if isinstance(q, (ast.Lambda, ast.ListComp, ast.SetComp, ast.DictComp, ast.GeneratorExp)):
+                return False
+            if isinstance(q, ast.IfExp) and prev is not q.test:
+                return False
+            if isinstance(q, ast.BoolOp) and prev is not q.values[0]:
+                return False
+            anc.append(q)
+        order = []
+        _eval_order(h, order)
+        pos = next(k for k, n in enumerate(order) if n is use)
+        for k, n in enumerate(order[:pos]):
+            if isinstance(n, ast.Call) and not is_pure(n):
+                return False
+            if isinstance(n, (ast.Yield, ast.Await, ast.NamedExpr)):
+                return False
+        # stores into the name itself elsewhere in the statement are excluded by the single-binding requirement
+        return True
+    return False
+
+
+def _blocks(node):
+    for n in ast.walk(node):
+        for fld in ("body", "orelse", "finalbody"):
+            sub = getattr(n, fld, None)
+            if isinstance(sub, list) and sub and isinstance(sub[0], ast.stmt):
+                yield sub
+
+
+def _rename_apart(f, keep):
+    """A local name that is reused for unrelated values (`totals = d[c.pool]` in one loop, `totals = d[p]` in the next) is split
+    into one name per binding when every read of it lies in the remainder of the block of exactly one binding, after that
+    binding and before the next one: the bindings are then independent single-assignment temporaries."""
+    all_stores, all_loads = {}, {}
+    for n in ast.walk(f):
+        if isinstance(n, ast.Name):
+            (all_loads if isinstance(n.ctx, ast.Load) else all_stores).setdefault(n.id, []).append(n)
+    params = {a.arg for a in f.args.args + f.args.kwonlyargs}
+    k = 0
+    for name, sts in all_stores.items():
+        if len(sts) < 2 or name in keep or name in params:
+            continue
+        groups = []
+        okay = True
+        seen_store_nodes = set()
+        for block in _blocks(f):
+            for i, st in enumerate(block):
+                if isinstance(st, ast.Assign) and len(st.targets) == 1 and isinstance(st.targets[0], ast.Name) and st.targets[0].id == name:
+                    covered = []
+                    for r in block[i + 1:]:
+                        if name in _bound_names(r):
+                            if isinstance(r, ast.Assign) and len(r.targets) == 1 and isinstance(r.targets[0], ast.Name) and r.targets[0].id == name:
+                                # the value of the next binding still reads this one
+                                covered += [n for n in ast.walk(r.value) if isinstance(n, ast.Name) and n.id == name]
+                            else:
+                                okay = False
+                            break
+                        covered += [n for n in ast.walk(r) if isinstance(n, ast.Name) and n.id == name and isinstance(n.ctx, ast.Load)]
+                    groups.append((st.targets[0], covered))
+                    seen_store_nodes.add(id(st.targets[0]))
+        if not okay or len(groups) != len(sts) or any(id(n) not in seen_store_nodes for n in sts) or any(not g[1] for g in groups):
+            continue
+        cov = [id(n) for g in groups for n in g[1]]
+        if len(cov) != len(set(cov)) or set(cov) != {id(n) for n in all_loads.get(name, [])}:
+            continue
+        for tgt, loads in groups:
+            k += 1
+            new = f"{name}__{k}"
+            tgt.id = new
+            for n in loads:
+                n.id = new
+    return k
+
+
+class _NoComp(Exception):
+    pass
+
+
+def _ends_with_continue(stmts):
+    if not stmts:
+        return False
+    last = stmts[-1]
+    if isinstance(last, ast.Continue):
+        return True
+    if isinstance(last, ast.If):
+        return _ends_with_continue(last.body) and _ends_with_continue(last.orelse)
+    return False
+
+
+def _append_leaves(stmts, conds, acc):
+    """paths of a filter-append loop body -> [(conditions along the path, appended expression)]"""
+    if not stmts:
+        return []
+    st, rest = stmts[0], stmts[1:]
+    if isinstance(st, ast.Continue):
+        return []
+    if isinstance(st, ast.Pass):
+        return _append_leaves(rest, conds, acc)
+    if isinstance(st, ast.Expr) and isinstance(st.value, ast.Call) and isinstance(st.value.func, ast.Attribute) and st.value.func.attr == "append" \
+            and isinstance(st.value.func.value, ast.Name) and st.value.func.value.id == acc and len(st.value.args) == 1 and not st.value.keywords:
+        if rest and not all(isinstance(r, (ast.Continue, ast.Pass)) for r in rest):
+            raise _NoComp()
+        return [(conds, st.value.args[0], st)]
+    if isinstance(st, ast.If):
+        b = list(st.body) + ([] if _ends_with_continue(st.body) else rest)
+        o = list(st.orelse) + ([] if st.orelse and _ends_with_continue(st.orelse) else rest)
+        neg = ast.UnaryOp(op=ast.Not(), operand=st.test)
+        return _append_leaves(b, conds + [st.test], acc) + _append_leaves(o, conds + [neg], acc)
+    raise _NoComp()
+
+
+def _loops_to_comprehensions(block):
+    """`acc = []` directly followed by a loop whose body only filters (if / continue) and appends one expression to acc becomes
+    `acc = [expr for target in iter if cond]`: the loop and the comprehension are one construct for the rules."""
+    changed = False
+    for st in list(block):
+        for fld in ("body", "orelse", "finalbody"):
+            sub = getattr(st, fld, None)
+            if isinstance(sub, list) and sub and isinstance(sub[0], ast.stmt):
+                if _loops_to_comprehensions(sub):
+                    changed = True
+    i = 0
+    while i + 1 < len(block):
+        a, l = block[i], block[i + 1]
+        if isinstance(a, ast.Assign) and len(a.targets) == 1 and isinstance(a.targets[0], ast.Name) and isinstance(a.value, ast.List) \
+                and not a.value.elts and isinstance(l, ast.For) and not l.orelse:
+            acc = a.targets[0].id
+            uses_acc = [n for n in ast.walk(l) if isinstance(n, ast.Name) and n.id == acc]
+            try:
+                leaves = _append_leaves(list(l.body), [], acc)
+            except _NoComp:
+                leaves = None
+            if leaves and len(uses_acc) == len({id(x) for c, e, x in leaves}) and len({ast.dump(e) for c, e, x in leaves}) == 1 \
+                    and not any(isinstance(n, (ast.Break, ast.Return, ast.Yield, ast.Assign, ast.AugAssign)) for n in ast.walk(l)):
+                def conj(cs):
+                    cs = [copy.deepcopy(c) for c in cs]
+                    return cs[0] if len(cs) == 1 else ast.BoolOp(op=ast.And(), values=cs)
+                alts = [conj(c) for c, e, x in leaves if c]
+                ifs = []
+                if alts and len(alts) == len(leaves):
+                    ifs = [alts[0] if len(alts) == 1 else ast.BoolOp(op=ast.Or(), values=alts)]
+                comp = ast.ListComp(elt=copy.deepcopy(leaves[0][1]),
+                                    generators=[ast.comprehension(target=l.target, iter=l.iter, ifs=ifs, is_async=0)])
+                new = ast.copy_location(ast.Assign(targets=a.targets, value=comp, lineno=a.lineno), a)
+                block[i:i + 2] = [ast.fix_missing_locations(new)]
+                changed = True
+                continue
         i += 1
     return changed
 
 
 def inline_aliases(fn: ast.FunctionDef, keep=()) -> ast.FunctionDef:
     f = copy.deepcopy(fn)
+    _rename_apart(f, set(keep))
     counts = _assign_count(f)
     # a name that is read outside the block where it is bound must stay (checked coarsely: loads before its binding line)
     for _ in range(8):
-        if not _inline_in_block(f.body, counts, set(keep)):
+        ch = _inline_in_block(f.body, counts, set(keep))
+        if _loops_to_comprehensions(f.body):
+            ch = True
+        if not ch:
             break
         counts = _assign_count(f)
     ast.fix_missing_locations(f)
@@ -156,3 +434,448 @@ def inline_aliases(fn: ast.FunctionDef, keep=()) -> ast.FunctionDef:
         for child in ast.iter_child_nodes(parent):
             child._parent = parent  # type: ignore[attr-defined]
     return f
+
+
+# ---------------------------------------------------------------------------
+# helper inlining at the AST level
+#
+# `inline_helpers(fn, resolve)` returns a copy of `fn` in which calls to *local* helpers (functions defined inside `fn`) and to
+# *private* helpers (leading underscore; `resolve(callee_text)` returns their FunctionDef) are replaced by the helper's body:
+# extracting a few statements into `_helper(...)` and calling it is the most common refactoring, and rules that recognise a
+# construct by form would otherwise lose sight of it.  Supported shapes (anything else is left alone, i.e. stays opaque):
+#   A. straight-line helper ending in its only `return e`: the prefix statements are hoisted in front of the calling statement
+#      (locals renamed apart) and the call is replaced by `e`;
+#   B. helper whose returns are in tail position of an if-chain, called as `target = h(..)`, `return h(..)` or a bare statement:
+#      the chain is copied with `return e` rewritten to `target = e` (resp. kept / dropped).
+# Parameters are substituted by the argument expressions when those are pure (see is_pure) or used at most once, and bound by an
+# assignment otherwise.
+
+_COUNTER = [0]
+
+
+class _Rename(ast.NodeTransformer):
+    def __init__(self, mapping, subst):
+        self.mapping, self.subst = mapping, subst
+
+    def visit_Name(self, node):
+        if node.id in self.subst and isinstance(node.ctx, ast.Load):
+            return copy.deepcopy(self.subst[node.id])
+        if node.id in self.mapping:
+            return ast.copy_location(ast.Name(id=self.mapping[node.id], ctx=node.ctx), node)
+        return node
+
+
+def _terminates(block):
+    if not block:
+        return False
+    last = block[-1]
+    if isinstance(last, (ast.Return, ast.Raise)):
+        return True
+    if isinstance(last, ast.If):
+        return _terminates(last.body) and _terminates(last.orelse)
+    return False
+
+
+def _has_return(node):
+    return any(isinstance(n, ast.Return) for n in ast.walk(node))
+
+
+class _NoTail(Exception):
+    pass
+
+
+def _tailify(block, make):
+    """rewrite a block whose returns are all in tail position; make(value_expr) -> replacement statement list"""
+    out = []
+    for i, st in enumerate(block):
+        if isinstance(st, ast.Return):
+            out.extend(make(st.value if st.value is not None else ast.Constant(value=None)))
+            return out, True
+        if isinstance(st, ast.Raise):
+            out.append(st)
+            return out, True
+        if isinstance(st, ast.If) and _has_return(st):
+            rest = block[i + 1:]
+            if _terminates(st.body):
+                b, _ = _tailify(st.body, make)
+                o, t = _tailify(list(st.orelse) + rest, make)
+                out.append(ast.copy_location(ast.If(test=st.test, body=b, orelse=o), st))
+                return out, t
+            if st.orelse and _terminates(st.orelse):
+                o, _ = _tailify(st.orelse, make)
+                b, t = _tailify(list(st.body) + rest, make)
+                out.append(ast.copy_location(ast.If(test=st.test, body=b, orelse=o), st))
+                return out, t
+            raise _NoTail()
+        if _has_return(st):
+            raise _NoTail()
+        out.append(st)
+    return out, False
+
+
+def _bind(h: ast.FunctionDef, call: ast.Call, receiver):
+    """parameter name -> argument expression, or None if the call does not fit the simple protocol"""
+    a = h.args
+    if a.vararg or a.kwarg or a.posonlyargs:
+        return None
+    params = [p.arg for p in a.args]
+    binding = {}
+    if receiver is not None:
+        if not params:
+            return None
+        binding[params[0]] = receiver
+        params = params[1:]
+    if any(isinstance(x, ast.Starred) for x in call.args) or any(k.arg is None for k in call.keywords):
+        return None
+    if len(call.args) > len(params):
+        return None
+    for p, x in zip(params, call.args):
+        binding[p] = x
+    kwonly = [p.arg for p in a.kwonlyargs]
+    for k in call.keywords:
+        if k.arg in binding or k.arg not in params + kwonly:
+            return None
+        binding[k.arg] = k.value
+    all_pos = [p.arg for p in a.args]
+    defaults = dict(zip(all_pos[len(all_pos) - len(a.defaults):], a.defaults))
+    for p, d in zip(kwonly, a.kw_defaults):
+        if d is not None:
+            defaults[p] = d
+    for p in params + kwonly:
+        if p not in binding:
+            if p not in defaults:
+                return None
+            binding[p] = defaults[p]
+    return binding
+
+
+def _header_exprs(st):
+    """the expressions of a statement that are evaluated once, before any nested block"""
+    if isinstance(st, (ast.Assign, ast.AugAssign, ast.AnnAssign, ast.Expr, ast.Return)):
+        return [st]
+    if isinstance(st, ast.If):
+        return [st.test]
+    if isinstance(st, ast.For):
+        return [st.iter]
+    return []
+
+
+def _in_nested_scope(root, target):
+    """is `target` inside a comprehension / lambda within root?"""
+    def rec(n, inside):
+        if n is target:
+            return inside
+        ins = inside or isinstance(n, (ast.ListComp, ast.SetComp, ast.DictComp, ast.GeneratorExp, ast.Lambda))
+        for c in ast.iter_child_nodes(n):
+            r = rec(c, ins)
+            if r is not None:
+                return r
+        return None
+    return bool(rec(root, False))
+
+
+class _ReplaceNode(ast.NodeTransformer):
+    def __init__(self, old, new):
+        self.old, self.new = old, new
+
+    def visit(self, node):
+        if node is self.old:
+            return self.new
+        return self.generic_visit(node)
+
+
+def _helper_body(h):
+    body = list(h.body)
+    if body and isinstance(body[0], ast.Expr) and isinstance(body[0].value, ast.Constant) and isinstance(body[0].value.value, str):
+        body = body[1:]
+    return body
+
+
+def _expand_call(st, call, h, receiver, caller_locals):
+    """-> list of statements replacing `st`, or None"""
+    binding = _bind(h, call, receiver)
+    if binding is None:
+        return None
+    body = copy.deepcopy(_helper_body(h))
+    if not body or any(isinstance(n, (ast.Yield, ast.YieldFrom, ast.Global, ast.Nonlocal, ast.FunctionDef, ast.While, ast.Try, ast.With))
+                       for b in body for n in ast.walk(b)):
+        return None
+    _COUNTER[0] += 1
+    tag = f"__h{_COUNTER[0]}"
+    stores = {n.id for b in body for n in ast.walk(b) if isinstance(n, ast.Name) and isinstance(n.ctx, (ast.Store, ast.Del))}
+    loads = {}
+    for b in body:
+        for n in ast.walk(b):
+            if isinstance(n, ast.Name) and isinstance(n.ctx, ast.Load):
+                loads[n.id] = loads.get(n.id, 0) + 1
+    free = set(loads) - stores - set(binding)
+    nested = h in caller_locals.get("@nested", ())
+    if not nested and free & caller_locals.get("@stores", set()):
+        return None  # a global of the helper's module is shadowed by a local of the caller
+    mapping = {n: n + tag for n in stores}
+    subst, pre = {}, []
+    for p, x in binding.items():
+        if p in stores:
+            mapping[p] = p + tag
+            pre.append(ast.copy_location(ast.Assign(targets=[ast.Name(id=p + tag, ctx=ast.Store())], value=copy.deepcopy(x), lineno=st.lineno), st))
+        elif is_pure(x) or loads.get(p, 0) <= 1:
+            subst[p] = x
+        else:
+            mapping[p] = p + tag
+            pre.append(ast.copy_location(ast.Assign(targets=[ast.Name(id=p + tag, ctx=ast.Store())], value=copy.deepcopy(x), lineno=st.lineno), st))
+    rn = _Rename(mapping, subst)
+    body = [rn.visit(b) for b in body]
+    n_ret = sum(isinstance(n, ast.Return) for b in body for n in ast.walk(b))
+    # shape A
+    if n_ret == 1 and isinstance(body[-1], ast.Return) and body[-1].value is not None:
+        prefix = pre + body[:-1]
+        holder = st if isinstance(st, (ast.Assign, ast.AugAssign, ast.AnnAssign, ast.Expr, ast.Return)) else \
+            (st.test if isinstance(st, ast.If) else st.iter)
+        if prefix and _in_nested_scope(holder, call):
+            return None
+        new_st = _ReplaceNode(call, body[-1].value).visit(st)
+        return prefix + [new_st]
+    # shape B
+    try:
+        if isinstance(st, ast.Assign) and st.value is call:
+            make = lambda v: [ast.copy_location(ast.Assign(targets=copy.deepcopy(st.targets), value=v, lineno=st.lineno), st)]
+        elif isinstance(st, ast.Return) and st.value is call:
+            make = lambda v: [ast.copy_location(ast.Return(value=v), st)]
+        elif isinstance(st, ast.Expr) and st.value is call:
+            make = lambda v: [ast.copy_location(ast.Expr(value=v), st)] if not isinstance(v, ast.Constant) else []
+        else:
+            return None
+        new, _ = _tailify(body, make)
+        for s in new:
+            for n in ast.walk(s):
+                if isinstance(n, ast.If) and not n.body:
+                    n.body = [ast.Pass()]
+        return pre + new
+    except _NoTail:
+        return None
+
+
+def _inline_block(block, resolve, local_defs, caller_locals, log):
+    changed = False
+    i = 0
+    while i < len(block):
+        st = block[i]
+        if isinstance(st, (ast.FunctionDef, ast.AsyncFunctionDef, ast.ClassDef)):
+            i += 1
+            continue
+        done = False
+        for holder in _header_exprs(st):
+            for call in [n for n in ast.walk(holder) if isinstance(n, ast.Call)]:
+                h, receiver = None, None
+                f = call.func
+                if isinstance(f, ast.Name) and f.id in local_defs:
+                    h = local_defs[f.id]
+                else:
+                    txt = ast.unparse(f).replace(" ", "")
+                    h = resolve(txt) if resolve else None
+                    if h is not None and isinstance(f, ast.Attribute):
+                        static = any(isinstance(d, ast.Name) and d.id == "staticmethod" for d in h.decorator_list)
+                        if not static:
+                            # classmethod called on the class / cls, or a method on self: the receiver is the first parameter
+                            receiver = f.value
+                            if any(isinstance(d, ast.Name) and d.id == "classmethod" for d in h.decorator_list) is False \
+                                    and not (isinstance(f.value, ast.Name) and f.value.id in ("self", "cls")):
+                                h = None
+                if h is None:
+                    continue
+                new = _expand_call(st, call, h, receiver, caller_locals)
+                if new is None:
+                    continue
+                block[i:i + 1] = new
+                log.append(h.name)
+                changed = done = True
+                break
+            if done:
+                break
+        if done:
+            continue  # re-examine the replacement statements
+        for fld in ("body", "orelse", "finalbody"):
+            sub = getattr(st, fld, None)
+            if isinstance(sub, list) and sub and isinstance(sub[0], ast.stmt):
+                if _inline_block(sub, resolve, local_defs, caller_locals, log):
+                    changed = True
+        if isinstance(st, ast.Try):
+            for hd in st.handlers:
+                if _inline_block(hd.body, resolve, local_defs, caller_locals, log):
+                    changed = True
+        i += 1
+    return changed
+
+
+def inline_helpers(fn: ast.FunctionDef, resolve=None):
+    """-> (function with helper calls expanded, names of the helpers expanded).  The input is not modified; when nothing was
+    expanded the input itself is returned (so node identity and parent links are those of the parsed module)."""
+    local_defs = {s.name: s for s in fn.body if isinstance(s, ast.FunctionDef)}
+    has_candidate = bool(local_defs)
+    if not has_candidate and resolve is not None:
+        for n in ast.walk(fn):
+            if isinstance(n, ast.Call) and resolve(ast.unparse(n.func).replace(" ", "")) is not None:
+                has_candidate = True
+                break
+    if not has_candidate:
+        return fn, []
+    f = copy.deepcopy(fn)
+    local_defs = {s.name: s for s in f.body if isinstance(s, ast.FunctionDef)}
+    caller_locals = {
+        "@stores": {n.id for n in ast.walk(f) if isinstance(n, ast.Name) and isinstance(n.ctx, ast.Store)} | {a.arg for a in f.args.args},
+        "@nested": list(local_defs.values()),
+    }
+    log = []
+    for _ in range(4):
+        if not _inline_block(f.body, resolve, local_defs, caller_locals, log):
+            break
+    if not log:
+        return fn, []
+    # drop local helper definitions that are no longer referenced
+    for name, d in local_defs.items():
+        used = any(isinstance(n, ast.Name) and n.id == name and isinstance(n.ctx, ast.Load) for s in f.body if s is not d for n in ast.walk(s))
+        if not used:
+            f.body.remove(d)
+    ast.fix_missing_locations(f)
+    _renumber(f)
+    for parent in ast.walk(f):
+        for child in ast.iter_child_nodes(parent):
+            child._parent = parent  # type: ignore[attr-defined]
+    return f, log
+
+
+def _renumber(f):
+    """give the statements of an expanded function line numbers that increase in statement order (rules compare positions of
+    statements through line numbers; expanded helper bodies would otherwise carry the lines of their definition)"""
+    counter = [f.lineno]
+
+    def rec(st):
+        counter[0] += 1
+        here = counter[0]
+        st.lineno = here
+        for fld, val in ast.iter_fields(st):
+            vals = val if isinstance(val, list) else [val]
+            for v in vals:
+                if isinstance(v, ast.stmt):
+                    rec(v)
+                elif isinstance(v, ast.ExceptHandler):
+                    v.lineno = counter[0]
+                    for b in v.body:
+                        rec(b)
+                elif isinstance(v, ast.AST):
+                    for n in ast.walk(v):
+                        if hasattr(n, "lineno"):
+                            n.lineno = here
+                            n.end_lineno = here
+        st.end_lineno = counter[0]
+
+    for st in f.body:
+        rec(st)
+    f.end_lineno = counter[0]
+
+
+def structure_continues(stmts):
+    """A loop body in which `continue` appears only at the end of if-branches is rewritten without it: `if c: A; continue` followed
+    by R becomes `if c: A  else: R`.  The result (a new statement list) has one exit, the end of the body, and can be
+    if-converted.  Returns None when a continue is somewhere else (inside a nested loop is fine: that is that loop's business)."""
+    def conv(block):
+        out = []
+        for i, st in enumerate(block):
+            rest = block[i + 1:]
+            if isinstance(st, ast.Continue):
+                return out
+            if isinstance(st, ast.If) and _has_continue(st):
+                b_end, o_end = _ends_with_continue(st.body), bool(st.orelse) and _ends_with_continue(st.orelse)
+                body = conv(list(st.body) + ([] if b_end else list(rest)))
+                orelse = conv(list(st.orelse) + ([] if o_end else list(rest)))
+                new = ast.copy_location(ast.If(test=st.test, body=body or [ast.Pass()], orelse=orelse), st)
+                out.append(new)
+                return out
+            if not isinstance(st, (ast.For, ast.While)) and _has_continue(st):
+                raise _NoComp()
+            out.append(st)
+        return out
+
+    try:
+        res = conv(copy.deepcopy(list(stmts)))
+    except _NoComp:
+        return None
+    for s in res:
+        ast.fix_missing_locations(s)
+    return res
+
+
+def _has_continue(node):
+    """a continue that belongs to the loop whose body contains `node` (not to a nested loop)"""
+    def rec(n, top):
+        if isinstance(n, ast.Continue):
+            return True
+        if not top and isinstance(n, (ast.For, ast.While, ast.FunctionDef, ast.Lambda)):
+            return False
+        return any(rec(c, False) for c in ast.iter_child_nodes(n))
+    if isinstance(node, (ast.For, ast.While)):
+        return False
+    return rec(node, True)
+
+
+# ---------------------------------------------------------------------------
+# query-time expansion of temporaries
+
+
+def expand_locals(expr, fn, stop=()):
+    """`expr` with every local temporary replaced by its definition, recursively: a name qualifies when the function binds it
+    exactly once, by a plain `name = value` statement.  Rules that ask "what is stored here, in terms of the inputs?" get the
+    same answer whether the code names its intermediate values or not.  (Order of evaluation is not considered: use this for
+    *what a value is made of*; the order-sensitive normal form is inline_aliases.)"""
+    counts = {}
+    defs = {}
+    for n in ast.walk(fn):
+        if isinstance(n, ast.Name) and isinstance(n.ctx, (ast.Store, ast.Del)):
+            counts[n.id] = counts.get(n.id, 0) + 1
+        if isinstance(n, ast.Assign) and len(n.targets) == 1 and isinstance(n.targets[0], ast.Name):
+            defs[n.targets[0].id] = n.value
+        if isinstance(n, ast.Assign) and len(n.targets) == 1 and isinstance(n.targets[0], ast.Tuple) \
+                and all(isinstance(e, ast.Name) for e in n.targets[0].elts) and not isinstance(n.value, ast.Tuple):
+            # a, b, c = value  ->  a is value[0], ...
+            for k, e in enumerate(n.targets[0].elts):
+                defs[e.id] = ast.Subscript(value=n.value, slice=ast.Constant(value=k), ctx=ast.Load())
+    for a in fn.args.args + fn.args.kwonlyargs:
+        counts[a.arg] = counts.get(a.arg, 0) + 1
+    ok = {k: v for k, v in defs.items() if counts.get(k) == 1 and k not in stop and not isinstance(v, ast.Lambda)}
+
+    class X(ast.NodeTransformer):
+        def __init__(self):
+            self.active = []
+
+        def visit_Name(self, node):
+            if isinstance(node.ctx, ast.Load) and node.id in ok and node.id not in self.active:
+                self.active.append(node.id)
+                r = self.visit(copy.deepcopy(ok[node.id]))
+                self.active.pop()
+                return r
+            return node
+
+    out = X().visit(copy.deepcopy(expr))
+    return ast.fix_missing_locations(out)
+
+
+def record_field_values(scope, field):
+    """values stored for the string key `field` of a per-card record, in any of the spellings
+         D[k]["field"] = v        D[k] = {"field": v, ...}        D[k] = dict(field=v, ...)
+       -> list of (D[k] node, value node, statement)"""
+    out = []
+    for st in ast.walk(scope):
+        if not isinstance(st, ast.Assign) or len(st.targets) != 1:
+            continue
+        t, v = st.targets[0], st.value
+        if isinstance(t, ast.Subscript) and isinstance(t.slice, ast.Constant) and t.slice.value == field and isinstance(t.value, ast.Subscript):
+            out.append((t.value, v, st))
+        elif isinstance(t, ast.Subscript) and isinstance(v, ast.Dict):
+            for k, x in zip(v.keys, v.values):
+                if isinstance(k, ast.Constant) and k.value == field:
+                    out.append((t, x, st))
+        elif isinstance(t, ast.Subscript) and isinstance(v, ast.Call) and isinstance(v.func, ast.Name) and v.func.id == "dict":
+            for k in v.keywords:
+                if k.arg == field:
+                    out.append((t, k.value, st))
+    return out
